@@ -129,7 +129,7 @@ func runC11(c *Ctx) {
 		}))
 		c.obI("R11.1", cp, "part-body-is-whole-file", ok, "the content copied into a part is the original file, or — after sniffing — the sniffed bytes followed by the REST of that file (io.MultiReader(bytes.NewReader(buf[:n]), file)): nothing is dropped however short the first read was", "origin "+describeOrigin(bad))
 	}
-	c.min("R11.1", 5)
+	c.min("R11.1", 4)
 
 	// R11.2 getBody override
 	var gbStores []*ssa.Store
@@ -321,21 +321,7 @@ func runC11(c *Ctx) {
 	c.obF("R11.3", f, "sets-content-type", nCT >= 3, "each body-carrying path sets the Content-Type", fmt.Sprintf("%d sites", nCT))
 	mc := p.Fn("rt/client.mangleContentType")
 	for _, r := range returnsOf(mc) {
-		uses := false
-		for _, o := range originsOf(r.Results[0]) {
-			switch x := o.V.(type) {
-			case *ssa.BinOp:
-				uses = x.Y == ssa.Value(mc.Params[1]) || x.X == ssa.Value(mc.Params[1])
-			case *ssa.Call:
-				if elems, ok := sliceLitElems(x.Call.Args[len(x.Call.Args)-1]); ok {
-					for _, e := range elems {
-						if unboxed(e) == ssa.Value(mc.Params[1]) {
-							uses = true
-						}
-					}
-				}
-			}
-		}
+		uses := valueMentions(r.Results[0], mc.Params[1], 6)
 		c.obI("R11.3", r, "mangled-type-carries-boundary", uses, "every multipart content type carries the boundary", "")
 	}
 	c.min("R11.3", 8)
@@ -487,4 +473,45 @@ func globalInitCall(p *Prog, g *ssa.Global, callee string) *ssa.Call {
 		}
 	}
 	return nil
+}
+
+// valueMentions: the expression computing v (string concatenations, formatting calls, conversions, phis) has target
+// among its operands.
+func valueMentions(v, target ssa.Value, depth int) bool {
+	if v == target {
+		return true
+	}
+	if depth == 0 {
+		return false
+	}
+	switch x := v.(type) {
+	case *ssa.BinOp:
+		return valueMentions(x.X, target, depth-1) || valueMentions(x.Y, target, depth-1)
+	case *ssa.MakeInterface:
+		return valueMentions(x.X, target, depth-1)
+	case *ssa.ChangeType:
+		return valueMentions(x.X, target, depth-1)
+	case *ssa.Convert:
+		return valueMentions(x.X, target, depth-1)
+	case *ssa.Phi:
+		for _, e := range x.Edges {
+			if valueMentions(e, target, depth-1) {
+				return true
+			}
+		}
+	case *ssa.Call:
+		for _, a := range x.Call.Args {
+			if valueMentions(a, target, depth-1) {
+				return true
+			}
+			if elems, ok := sliceLitElems(a); ok {
+				for _, e := range elems {
+					if valueMentions(e, target, depth-1) {
+						return true
+					}
+				}
+			}
+		}
+	}
+	return false
 }
